@@ -6,11 +6,14 @@ in it (drop each optional / default-valued property or attribute, one at a time;
 verify are kept).  For every module: print in CUSTOM form -> parse in a fresh context -> canonical form
 (mc/canon.py with the property's normalisation) equals the original's; print in GENERIC form -> parse
 -> same canonical form; printing the re-parsed module in custom form is a fixpoint.
+A small hand-written supplement (mc/extra_corpus/*.mlir, generic form) adds shapes the in-tree tests never contain
+(values and results of function type in func.func / func.call / scf / cf / casts, empty and nested tuples).
 Evidence lists the operations covered (an op no case reaches is not claimed).
 """
 from __future__ import annotations
 
 import io
+import itertools
 import re
 from typing import Any
 
@@ -125,13 +128,17 @@ def _shard(arg) -> Stats:
     shard, nshards, max_ops, seed = arg
     st = Stats()
     covered: dict[str, int] = {}
-    for i, (rel, ci, text) in enumerate(corpus.chunks()):
+    for i, (rel, ci, text) in enumerate(itertools.chain(corpus.chunks(), corpus.extra_chunks())):
         if i % nshards != shard:
             continue
         st.transitions += 1
         m = corpus.parse(text, rel)
         if m is None:
-            if corpus.was_verified(rel, ci, text):
+            if rel.startswith(corpus.EXTRA_PREFIX):
+                exc, msg = corpus.why_rejected(text, rel)
+                st.violate(f"C05|extra|hand-written-generic-module-rejected|{exc}|{rel}#{ci}",
+                           f"a hand-written valid module (generic form) is rejected: {exc}: {msg}", {"file": rel, "chunk": ci})
+            elif corpus.was_verified(rel, ci, text):
                 # custom-format text that the repository's own tests treat as valid (and that was accepted when the
                 # manifest was generated) is now rejected
                 exc, msg = corpus.why_rejected(text, rel)
@@ -188,7 +195,7 @@ def replay(rep) -> bool:
     text = corpus.chunks_of(w["file"])[w["chunk"]]
     m = corpus.parse(text)
     if m is None:
-        return not corpus.was_verified(w["file"], w["chunk"], text)
+        return not (w["file"].startswith(corpus.EXTRA_PREFIX) or corpus.was_verified(w["file"], w["chunk"], text))
     if w.get("variant"):
         label, k, key = w["variant"]
         op = list(m.walk())[k]
